@@ -295,6 +295,41 @@ pub fn dump(storage: &Storage, sites: &[Site], prefix: &str, out: &mut Vec<Strin
     }
 }
 
+/// Raw links (`F` lines) and derived query results (`Q` lines) of a real storage.
+pub fn forest_doc(storage: &Storage) -> Vec<String> {
+    let spans: Vec<CapturedSpan<'_>> = storage.all_spans().collect();
+    let events: Vec<CapturedEvent<'_>> = storage.all_events().collect();
+    let spos = |s: &CapturedSpan<'_>| spans.iter().position(|x| x == s).unwrap();
+    let epos = |e: &CapturedEvent<'_>| events.iter().position(|x| x == e).unwrap();
+    let mut out = vec![];
+    for (i, s) in spans.iter().enumerate() {
+        out.push(format!(
+            "F sp {i} par={} ch={} ev={} ff={}",
+            s.parent().map_or("-".into(), |p| spos(&p).to_string()),
+            idxs(&s.children().map(|c| spos(&c)).collect::<Vec<_>>()),
+            idxs(&s.events().map(|e| epos(&e)).collect::<Vec<_>>()),
+            idxs(&s.follows_from().map(|c| spos(&c)).collect::<Vec<_>>())
+        ));
+    }
+    for (j, e) in events.iter().enumerate() {
+        out.push(format!("F evn {j} par={}", e.parent().map_or("-".into(), |p| spos(&p).to_string())));
+    }
+    out.push(format!(
+        "F roots sp={} ev={}",
+        idxs(&storage.root_spans().map(|s| spos(&s)).collect::<Vec<_>>()),
+        idxs(&storage.root_events().map(|e| epos(&e)).collect::<Vec<_>>())
+    ));
+    for (i, s) in spans.iter().enumerate() {
+        out.push(format!("Q desc {i} {}", idxs(&s.descendants().map(|d| spos(&d)).collect::<Vec<_>>())));
+        out.push(format!("Q anc {i} {}", idxs(&s.ancestors().map(|d| spos(&d)).collect::<Vec<_>>())));
+        out.push(format!("Q dev {i} {}", idxs(&s.descendant_events().map(|e| epos(&e)).collect::<Vec<_>>())));
+    }
+    for (j, e) in events.iter().enumerate() {
+        out.push(format!("Q eanc {j} {}", idxs(&e.ancestors().map(|d| spos(&d)).collect::<Vec<_>>())));
+    }
+    out
+}
+
 pub fn run_capture(prog: &Program, cfg: &Config) -> (Vec<SharedStorage>, bool) {
     let (s, p, _) = run_capture_log(prog, cfg);
     (s, p)
@@ -529,6 +564,12 @@ impl Suite for Capture {
                 }
             }
             out.obs.extend(d.iter().cloned());
+            // ---- C17: raw structure + derived queries of the REAL storage, for the `forest` driver
+            if let Ok(lock) = catch_unwind(AssertUnwindSafe(|| st.lock())) {
+                out.docs.push(format!("F begin L{i}"));
+                out.docs.extend(forest_doc(&lock));
+                out.docs.push("F end".into());
+            }
             // ---- C05: the storage against the independent reference interpreter
             if !panicked {
                 let want = expected_dump(&prog.sites, &cfg.layers[i], &fe_log, &format!("L{i} "));
